@@ -206,7 +206,7 @@ pub fn run(tier: Tier) -> i32 {
     let pre = preflight();
     let seed = ctx.seed;
     let mut t = Tally::new();
-    let n = tier.n(3000, 40_000);
+    let n = tier.n(8000, 40_000);
     let c = corpus(seed, n);
     let reference = sequential_digests(&c);
     t.evaluations += n;
